@@ -27,11 +27,13 @@ def oracle(ctx, specs, k, rnd, dups):
                             f"value {s} not a member of inferred {show(T)} (k={k}); innermost rejected: {rej[0]} {rej[1]!r}")
     importable = "twin" not in repr(specs)  # two classes that print alike cannot both be found again by module + qualname
     try:
-        Ts = tinfer.infer_via_store([vals.build(s) for s in specs], k) if importable else T
+        vstore = [vals.build(s) for s in specs]
+        Ts, kept = tinfer.infer_via_store_kept(vstore, k) if importable else (T, vs)
     except Exception as e:
         return ctx.fail(f"C04/inference-raises:{type(e).__name__}", [specs, k, "via-store"], "merging decoded per-value types: " + repr(e))
-    for s, v in zip(specs, vs):
-        if not conforms(v, Ts):
+    kept_ids = {id(x) for x in kept}
+    for s, v in zip(specs, vstore if importable else vs):
+        if id(v) in kept_ids and not conforms(v, Ts):
             return ctx.fail("C04/value-not-admitted", [specs, k, "via-store"],
                             f"value {s} not a member of {show(Ts)} merged from the decoded per-value types (k={k})")
     if vals.has_repeated_container(specs):
@@ -82,8 +84,36 @@ def oracle(ctx, specs, k, rnd, dups):
                                 f"merged over call traces (position {('argument', 'return', 'yield')[pos]}): {show(got[0][pos])} for {specs} but {show(got[1][pos])} for presentation {pres} (k={k})")
 
 
+def big_containers(ctx):
+    """containers of several hundred to a few thousand elements whose LAST element has a type none of the others has: every
+    element counts, however many there are"""
+    import random as _r
+    odd = [["lit", "odd"], ["lit", None], ["dict", [[["lit", "a"], ["lit", 0]], [["lit", "b"], ["lit", None]]]], ["inst", "D1"]]
+    for n in (300, 513, 1000, 3000):
+        for kind in ("list", "set", "tuple-in-list", "dictvalues"):
+            for o in odd:
+                if kind == "set" and o[0] == "dict":
+                    continue
+                if kind == "list":
+                    spec = ["list", [["lit", i] for i in range(n)] + [o]]
+                elif kind == "set":
+                    spec = ["set", [["lit", i] for i in range(n)] + [o if o[0] != "inst" else ["lit", "odd"]]]
+                elif kind == "tuple-in-list":
+                    spec = ["list", [["list", [["lit", i] for i in range(n)] + [o]]]]
+                else:
+                    spec = ["dict", [[["lit", i], ["lit", i]] for i in range(n)] + [[["lit", n], o]]]
+                for k in (0, 3):
+                    ctx.case(["BIG", kind, n, o, k], True, ["big-container:%s" % kind])
+                    try:
+                        oracle(ctx, [spec], k, _r.Random(n), [1] * 8)
+                    except core.Violation as v:
+                        ctx.record_violation("C04/value-not-admitted", ["BIG", kind, n, o, k], f"a {kind} of {n} elements plus one {o}: " + v.message[-300:])
+
+
 def shard(ctx):
     q = ctx.tier == "quick"
+    if ctx.shard == 1 % ctx.nshards:
+        big_containers(ctx)
     tinfer.run_engine(ctx, oracle, 1500 if q else 15000, 2, 0.25 if q else 1.0)
 
 
@@ -95,6 +125,8 @@ def run(ctx):
 
 
 def replay(ctx, case):
+    if case and case[0] == "BIG":
+        return big_containers(ctx)
     specs, k = case[0], case[1]
     oracle(ctx, specs, k, random.Random(0), [2, 1, 3, 1, 2, 1, 1, 2])
     if len(case) > 3 and case[3] == "via-traces" and not isinstance(case[2], str):
